@@ -94,9 +94,14 @@ pub(crate) fn copy_term<T: CopierTarget>(
     let mut copy_term_state = CopyTermState::new(target, attr_var_policy);
     let old_threshold = copy_term_state.target.threshold();
 
-    copy_term_state.copy_term_impl(addr)?;
-    copy_term_state.copy_attr_var_lists()?;
+    let copied = copy_term_state
+        .copy_term_impl(addr)
+        .and_then(|_| copy_term_state.copy_attr_var_lists());
+
+    // the forwarding pointers left in the source term are taken back
+    // whether or not the copy could be completed.
     copy_term_state.unwind_trail();
+    copied?;
 
     let new_threshold = copy_term_state.target.threshold();
     copy_term_state.copy_pstrs()?;
